@@ -39,7 +39,7 @@ MATCH = [":is", ":contains", ":matches"]
 
 class Definition:
     __slots__ = ("conditions", "actions", "matchtype", "tests", "acts", "strings",
-                 "numbers", "exts", "kinds")
+                 "numbers", "exts", "kinds", "_update")
 
     def __init__(self):
         self.conditions = []
@@ -291,4 +291,6 @@ def neutralise(d: Definition, chars='"\\'):
     n.numbers = list(d.numbers)
     n.exts = set(d.exts)
     n.kinds = list(d.kinds)
+    if getattr(d, "_update", None) is not None:
+        n._update = neutralise(d._update, chars)
     return n
